@@ -73,6 +73,84 @@ pub fn keep(p: u32, k: u32, v: i64) -> bool {
 
 /* ---------------- generation ---------------- */
 
+/// tree-bin flavoured cases: colliding keys in a table of at least 64 bins, adversarial orders
+pub fn gen_tree_case(rng: &mut SplitMix64, id: u64) -> Case {
+    let hasher = match rng.below(4) {
+        0 | 1 => H_ZERO,
+        2 => H_SAMEBIN,
+        _ => H_HIGH,
+    };
+    let universe = 10 + rng.below(50) as u32;
+    let cap = if rng.chance(3, 4) { 64 + rng.below(70) } else { rng.below(64) };
+    let mut ops = Vec::new();
+    let mut val = 1i64;
+    let rounds = 1 + rng.below(3);
+    for _ in 0..rounds {
+        // a fill in ascending / descending / zig-zag / random order
+        let n = 8 + rng.below((universe - 8) as u64 + 1) as u32;
+        let order: Vec<u32> = match rng.below(4) {
+            0 => (0..n).collect(),
+            1 => (0..n).rev().collect(),
+            2 => (0..n).map(|i| if i % 2 == 0 { i / 2 } else { n - 1 - i / 2 }).collect(),
+            _ => {
+                let mut v: Vec<u32> = (0..n).collect();
+                for i in (1..v.len()).rev() {
+                    let j = rng.below(i as u64 + 1) as usize;
+                    v.swap(i, j);
+                }
+                v
+            }
+        };
+        for k in &order {
+            val += 1;
+            ops.push(if rng.chance(1, 8) { Op::TryInsert(*k, val) } else { Op::Insert(*k, val) });
+            if rng.chance(1, 10) {
+                ops.push(Op::Get(rng.below(universe as u64) as u32));
+            }
+        }
+        if rng.chance(1, 3) {
+            ops.push(Op::Iter);
+        }
+        // a drain in some order, possibly partial
+        let m = rng.below(n as u64 + 1) as u32;
+        let mut drain: Vec<u32> = (0..n).collect();
+        match rng.below(3) {
+            0 => {}
+            1 => drain.reverse(),
+            _ => {
+                for i in (1..drain.len()).rev() {
+                    let j = rng.below(i as u64 + 1) as usize;
+                    drain.swap(i, j);
+                }
+            }
+        }
+        for k in drain.iter().take(m as usize) {
+            ops.push(match rng.below(8) {
+                0 => Op::RemoveEntry(*k),
+                1 => Op::Compute(*k, 0),
+                2 => Op::Compute(*k, 1),
+                _ => Op::Remove(*k),
+            });
+        }
+        match rng.below(6) {
+            0 => ops.push(Op::Retain(2 + rng.below(3) as u32)),
+            1 => ops.push(Op::Clone),
+            2 => ops.push(Op::Reserve(rng.below(300))),
+            3 => ops.push(Op::Clear),
+            _ => {}
+        }
+    }
+    Case {
+        id,
+        hasher,
+        cap,
+        universe,
+        pin: rng.chance(1, 2),
+        batch: [1, 2, 8, 0][rng.below(4) as usize],
+        ops,
+    }
+}
+
 pub fn gen_case(rng: &mut SplitMix64, id: u64, long: bool) -> Case {
     let hasher = match rng.below(16) {
         0..=3 => H_IDENTITY,
@@ -249,6 +327,8 @@ pub enum Item {
 
 pub struct CaseRun {
     pub dumps: Vec<CDump>,
+    /// for each dump, the earlier dump it is printed relative to (None = printed in full)
+    pub bases: Vec<Option<usize>>,
     pub items: Vec<Item>,
     pub hashes: Vec<(u32, u64)>,
     /// model-free failures: (step index, description)
@@ -387,6 +467,7 @@ impl<I: Iterator> Iterator for HintIter<I> {
 pub fn run_case<S: BuildHasher + Default + Clone>(case: &Case) -> CaseRun {
     let mut run = CaseRun {
         dumps: Vec::new(),
+        bases: Vec::new(),
         items: Vec::new(),
         hashes: Vec::new(),
         failures: Vec::new(),
@@ -404,6 +485,7 @@ pub fn run_case<S: BuildHasher + Default + Clone>(case: &Case) -> CaseRun {
         };
         run.hashes = (0..case.universe + 2).map(|k| (k, map.verif_hash(&Key::probe(k)))).collect();
         run.dumps.push(take(&map));
+        run.bases.push(None);
         run.items.push(Item::New(case.cap, 0));
         if let Some(f) = compare_with_std(&map, &std, case.universe, &run.dumps[0]) {
             run.failures.push((0, f));
@@ -440,11 +522,13 @@ pub fn run_case<S: BuildHasher + Default + Clone>(case: &Case) -> CaseRun {
                         }
                     }
                     run.dumps.push(d);
+                    run.bases.push(None);
                     let ci = run.dumps.len() - 1;
                     run.items.push(Item::Clone(pre, ci));
                     // keep `pre` as the last dump of the main map
                     let again = run.dumps[pre].clone();
                     run.dumps.push(again);
+                    run.bases.push(Some(pre));
                     drop(c);
                     continue;
                 }
@@ -468,11 +552,13 @@ pub fn run_case<S: BuildHasher + Default + Clone>(case: &Case) -> CaseRun {
                         run.failures.push((step, format!("collect: {}", f)));
                     }
                     run.dumps.push(d);
+                    run.bases.push(None);
                     let ci = run.dumps.len() - 1;
                     let ch: Vec<(u32, u64)> = (0..case.universe + 2).map(|k| (k, c.verif_hash(&Key::probe(k)))).collect();
                     run.items.push(Item::Collect(ch, *hint, its, ci));
                     let again = run.dumps[pre].clone();
                     run.dumps.push(again);
+                    run.bases.push(Some(pre));
                     drop(c);
                     continue;
                 }
@@ -689,6 +775,7 @@ pub fn run_case<S: BuildHasher + Default + Clone>(case: &Case) -> CaseRun {
             }
             run.stats.max_len = run.stats.max_len.max(post_len);
             run.dumps.push(d);
+            run.bases.push(Some(pre));
             let post = run.dumps.len() - 1;
             run.items.push(Item::Step(pre, op_coq(op, &insts), out, post));
         }
@@ -766,7 +853,11 @@ pub fn case_coq(name: &str, run: &CaseRun) -> String {
         run.hashes.iter().map(|(k, h)| format!("H_ {} {}", k, h)).collect::<Vec<_>>().join(";")
     ));
     for (i, d) in run.dumps.iter().enumerate() {
-        s.push_str(&format!("Definition {}_d{} := {}.\n", name, i, dump_coq_b(d)));
+        let body = match run.bases.get(i).cloned().flatten() {
+            Some(b) if run.dumps[b].len() == d.len() && d.len() > 0 => crate::dump::dump_delta_coq(&run.dumps[b], d, &format!("{}_d{}", name, b)),
+            _ => dump_coq_b(d),
+        };
+        s.push_str(&format!("Definition {}_d{} := {}.\n", name, i, body));
     }
     let items: Vec<String> = run
         .items
